@@ -528,3 +528,153 @@ Check SrcTie3Reader.translated_reader_nonvacuous.
 Theorem C01_tie_translated_reader_nonvacuous : ltac:(let t := type of SrcTie3Reader.translated_reader_nonvacuous in exact t).
 Proof. exact SrcTie3Reader.translated_reader_nonvacuous. Qed.
 Print Assumptions C01_tie_translated_reader_nonvacuous.
+
+(* ================= work package `carry`: C01 about GENERATED code on both sides =================
+   Writer: gen/Src2.v (the ArchiveWriter methods re-translated from /repo on every run) folded over a call
+   list by CarryWriter.src_wrun.  Reader: gen/Src3d.v (ArchiveFooter::deserialize_from, list_files,
+   get_hash, get_file, BlocksToFileReader::read).  Composition of the simulations (SrcTie2.v,
+   SrcTie3Reader*.v) with the model round trip above; nothing reproved.  NOT generated: the rewind of
+   from_config (CarryReader.src_open writes it as Reader.ropen does), bincode's byte layout of the footer
+   and ArchiveFileBlock::from = Blocks.parse_block. *)
+From MLA Require CarryWriter CarryReader.
+From MLAGen Require Src2 Src3d.
+Import SrcTie2 CarryWriter CarryReader.
+
+(* all calls of the TRANSLATED writer returned Ok and so did its finalize: the destination holds
+   ser_blocks bl ++ [EndOfArchiveData] ++ footer for a block list bl in the writer invariant (well-formed,
+   no EndOfArchiveData inside), whose names are the started names and whose content blocks per id
+   concatenate to the bytes given *)
+Theorem C01_writer_final_src :
+  forall FNMAX TS TC TA TE H order, (forall x : bytes, len (H x) = 32) ->
+  forall ops (sf : Src2.ArchiveWriter) rs,
+    src_wrun FNMAX TS TC TA TE H order aw0 (ops ++ [OFinalize]) = (sf, rs) ->
+    Forall (fun r => is_ok r = true) rs -> forallb op_utf8 ops = true ->
+    Src2.state sf = Src2.Finalized /\
+    exists (s : wstate) (bl : list block),
+      WInv FNMAX TS TC TA TE H s bl /\ w_open s = [] /\
+      Src2.dest sf = ser_blocks TS TC TA TE bl ++ [TA] ++ Blocks.ser_footer (order (w_footer s)) /\
+      w_footer (absW sf) = w_footer s /\
+      names_of bl = started 0 ops /\ (forall id, concat (datas id bl) = pieces 0 id ops) /\
+      (len (Src2.dest sf) < 2 ^ 64 -> Forall (wfb FNMAX) bl /\ ~ In BEnd bl).
+Proof. exact writer_final_src. Qed.
+
+(* END TO END: the bytes the translated writer left in its destination, behind ANY stream refining a
+   cursor over them (any stack of layers, short reads), from any position: the translated footer reader
+   opens them; the translated list_files returns exactly the started names once each; names never started
+   are absent; for every started file the translated get_hash returns H of the bytes given, the
+   translated get_file reports their count and the translated read, with ANY positive buffer sizes,
+   returns exactly those bytes in order and ends in Finish.  F is the fuel of the translated read loop
+   (the D14 loop): anything above (zf+1)(|offsets of the file|+2). *)
+Theorem C01_roundtrip_src :
+  forall FNMAX TS TC TA TE H order site_index,
+    tags_distinct TS TC TA TE -> (forall x : bytes, len (H x) = 32) ->
+    (forall f : footer, Permutation (order f) f) ->
+  forall ops (sf : Src2.ArchiveWriter) rs,
+    src_wrun FNMAX TS TC TA TE H order aw0 (ops ++ [OFinalize]) = (sf, rs) ->
+    Forall (fun r => is_ok r = true) rs -> forallb op_utf8 ops = true ->
+    len (Src2.dest sf) < 2 ^ 64 -> len (ser_footer_map (order (w_footer (absW sf)))) < 2 ^ 32 ->
+  forall (S : Stream) (R : st S -> N -> Prop), Refines S (Src2.dest sf) R ->
+  forall s0 p0, R s0 p0 ->
+    exists ar : Src3d.ArchiveReader S,
+      src_open S s0 = Ok ar /\
+      (exists names, Src3d.list_files S ar = (ar, Ok names) /\
+         Permutation names (map fst (started 0 ops)) /\ NoDup names) /\
+      (forall name, ~ In name (map fst (started 0 ops)) ->
+         Src3d.get_file S FNMAX TS TC TA TE site_index ar name = (ar, Ok None)) /\
+      (forall name id, In (name, id) (started 0 ops) ->
+         (exists ar', Src3d.get_hash S FNMAX TS TC TA TE ar name = (ar', Ok (Some (H (pieces 0 id ops))))) /\
+         exists fi, flookup (order (w_footer (absW sf))) name = Some fi /\
+           forall sizes : nat -> N, (forall i, 0 < sizes i) ->
+           forall zf fuel F : nat, (length (pieces 0 id ops) < fuel)%nat ->
+             (Datatypes.S zf * Datatypes.S (Datatypes.S (length (Blocks.fi_offsets fi))) <= F)%nat ->
+             exists ar' x x',
+               Src3d.get_file S FNMAX TS TC TA TE site_index ar name =
+                 (ar', Ok (Some (name, x, len (pieces 0 id ops)))) /\
+               SrcTie3ReaderRT.g_read_all S FNMAX TS TC TA TE site_index F fuel x sizes 0%nat [] =
+                 (x', Ok (pieces 0 id ops)) /\
+               Src3d.bfr_state S x' = Src3d.Finish).
+Proof. exact roundtrip_src. Qed.
+
+(* the pieces, from any translated reader value that holds the written footer (SrcRS) *)
+Theorem C01_list_files_src :
+  forall FNMAX TS TC TA TE H order, (forall x : bytes, len (H x) = 32) ->
+    (forall f : footer, Permutation (order f) f) ->
+  forall ops (sf : Src2.ArchiveWriter) rs,
+    src_wrun FNMAX TS TC TA TE H order aw0 (ops ++ [OFinalize]) = (sf, rs) ->
+    Forall (fun r => is_ok r = true) rs -> forallb op_utf8 ops = true ->
+    len (Src2.dest sf) < 2 ^ 64 -> len (ser_footer_map (order (w_footer (absW sf)))) < 2 ^ 32 ->
+  forall (S : Stream) (R : st S -> N -> Prop) (ar : Src3d.ArchiveReader S), SrcRS order sf S R ar ->
+    exists names, Src3d.list_files S ar = (ar, Ok names) /\
+      Permutation names (map fst (started 0 ops)) /\ NoDup names.
+Proof. exact list_files_src. Qed.
+Theorem C01_get_hash_src :
+  forall FNMAX TS TC TA TE H order, tags_distinct TS TC TA TE -> (forall x : bytes, len (H x) = 32) ->
+    (forall f : footer, Permutation (order f) f) ->
+  forall ops (sf : Src2.ArchiveWriter) rs,
+    src_wrun FNMAX TS TC TA TE H order aw0 (ops ++ [OFinalize]) = (sf, rs) ->
+    Forall (fun r => is_ok r = true) rs -> forallb op_utf8 ops = true ->
+    len (Src2.dest sf) < 2 ^ 64 -> len (ser_footer_map (order (w_footer (absW sf)))) < 2 ^ 32 ->
+  forall (S : Stream) (R : st S -> N -> Prop), Refines S (Src2.dest sf) R ->
+  forall (ar : Src3d.ArchiveReader S) name id, SrcRS order sf S R ar -> In (name, id) (started 0 ops) ->
+    exists ar', Src3d.get_hash S FNMAX TS TC TA TE ar name = (ar', Ok (Some (H (pieces 0 id ops)))) /\
+                SrcRS order sf S R ar'.
+Proof. exact get_hash_src. Qed.
+Theorem C01_open_src : ltac:(let t := type of open_src in exact t).
+Proof. exact open_src. Qed.
+Theorem C01_get_file_read_src : ltac:(let t := type of get_file_read_src in exact t).
+Proof. exact get_file_read_src. Qed.
+Theorem C01_absent_src : ltac:(let t := type of absent_src in exact t).
+Proof. exact absent_src. Qed.
+Theorem C01_src_open_is_ropen : ltac:(let t := type of src_open_ropen in exact t).
+Proof. exact src_open_ropen. Qed.
+
+(* non-vacuity THROUGH THE GENERATED CODE: two interleaved files written by the translated writer
+   (start, append, add_file, append, end, finalize), the destination read back through the translated
+   reader over a cursor with 2-byte buffers *)
+Definition carry_H (x : bytes) : bytes := map (fun i => (len x + 5 * N.of_nat i) mod 256) (seq 0 32).
+Lemma carry_H_len x : len (carry_H x) = 32.
+Proof. unfold carry_H, len. rewrite map_length, seq_length. reflexivity. Qed.
+Definition carry_ops : list wop :=
+  [OStart [97]; OAppend 0 3 [1; 2; 3]; OAdd [98] 2 [9; 8]; OFlush; OAppend 0 2 [4; 5]; OEnd 0].
+Definition carry_sf : Src2.ArchiveWriter :=
+  fst (src_wrun 48 0 1 254 255 carry_H (fun f => f) aw0 (carry_ops ++ [OFinalize])).
+Example C01_example_src_computed :
+  snd (src_wrun 48 0 1 254 255 carry_H (fun f => f) aw0 (carry_ops ++ [OFinalize])) = repeat (Ok 0) 7 /\
+  match src_open (Cursor (Src2.dest carry_sf)) 0 with
+  | Ok ar =>
+    snd (Src3d.list_files _ ar) = Ok [[97]; [98]] /\
+    snd (Src3d.get_hash _ 48 0 1 254 255 ar [97]) = Ok (Some (carry_H [1; 2; 3; 4; 5])) /\
+    match Src3d.get_file _ 48 0 1 254 255 0 ar [97] with
+    | (_, Ok (Some (_, x, sz))) =>
+      sz = 5 /\ snd (SrcTie3ReaderRT.g_read_all _ 48 0 1 254 255 0 20 10 x (fun _ => 2) 0%nat []) = Ok [1; 2; 3; 4; 5]
+    | _ => False
+    end
+  | _ => False
+  end.
+Proof. vm_compute. repeat split; reflexivity. Qed.
+(* and the premises of C01_roundtrip_src are met by that instance *)
+Example C01_example_src_premises :
+  exists ar, src_open (Cursor (Src2.dest carry_sf)) 0 = Ok ar /\
+    exists ar', Src3d.get_hash _ 48 0 1 254 255 ar [98] = (ar', Ok (Some (carry_H [9; 8]))).
+Proof.
+  assert (Hrun : src_wrun 48 0 1 254 255 carry_H (fun f => f) aw0 (carry_ops ++ [OFinalize]) = (carry_sf, repeat (Ok 0) 7))
+    by (vm_compute; reflexivity).
+  destruct (C01_roundtrip_src 48 0 1 254 255 carry_H (fun f => f) 0
+              ltac:(vm_compute; repeat split; discriminate) carry_H_len (fun f => Permutation_refl f)
+              carry_ops carry_sf _ Hrun ltac:(repeat constructor) ltac:(vm_compute; reflexivity)
+              ltac:(vm_compute; reflexivity) ltac:(vm_compute; reflexivity)
+              (Cursor (Src2.dest carry_sf)) _ (cursor_refines _) 0 0 ltac:(split; [reflexivity | apply N.le_0_l]))
+    as (ar & Ho & _ & _ & Hf).
+  exists ar. split; [exact Ho|].
+  destruct (Hf [98] 1 ltac:(vm_compute; auto)) as [Hh _]. exact Hh.
+Qed.
+
+Print Assumptions C01_writer_final_src.
+Print Assumptions C01_roundtrip_src.
+Print Assumptions C01_list_files_src.
+Print Assumptions C01_get_hash_src.
+Print Assumptions C01_open_src.
+Print Assumptions C01_get_file_read_src.
+Print Assumptions C01_absent_src.
+Print Assumptions C01_src_open_is_ropen.
+Print Assumptions C01_example_src_premises.
